@@ -307,6 +307,9 @@ def gen_cfg(rng, small):
     r = rng.random()
     if r < 0.35:
         cfg['stop'] = True
+        if items and rng.random() < 0.25:
+            # a task of an item in flight fails around the stop request: the failure still has to surface
+            cfg['task_raises'] = [rng.randrange(tasks), rng.randrange(items)]
     elif r < 0.5 and items:
         cfg['task_raises'] = [rng.randrange(tasks), rng.randrange(items)]
     elif r < 0.6:
@@ -351,6 +354,7 @@ DIRECTED = [
     {'items': 3, 'tasks': 2, 'conc': 2, 'more_runs': 2, 'source_delay': True},
     {'items': 3, 'tasks': 2, 'conc': 3, 'task_raises': [1, 0], 'changes': [0]},
     {'items': 2, 'tasks': 1, 'conc': 2, 'task_raises': [0, 0], 'changes': [1, 0]},
+    {'items': 3, 'tasks': 2, 'conc': 2, 'stop': True, 'task_raises': [1, 0]},
 ]
 
 
